@@ -380,6 +380,9 @@ def c12(run):
 
 def _suite_trace(run):
     """Pipeline V on the repository's own test suite: every stream operation the 141 tests perform, validated by Trace_StreamOps."""
+    if not os.path.exists(os.path.join(vlib.REPO, "src", "Stream", "VerifTrace.h")):
+        run.part("repository test suite traced through the stream hooks", skipped="the tree under test does not carry the verification hooks")
+        return
     log, passed = vlib.run_suite_traced()
     n0 = len(run.mismatches)
     v = validate(run, "Trace_StreamOps", log, "suite", what="repository test suite")
